@@ -239,6 +239,7 @@ theorem dom19_of_spec {op : Op} (h : opInDomain op = true) : opDom op := by
   · intro t ht; exact h.1 t ht
   · exact h
   · exact h
+  · cases h
 
 theorem all_run (ops : List Op) (hdom : ∀ op ∈ ops, opInDomain op = true) (s : State) (hwf : WF s.data) :
     (run s ops).all holdsOp = true := by
